@@ -478,6 +478,7 @@ class HashRule(ABC):
                         symbol=parts[i],
                         first_level=first_level,
                         ref_is_global_table=False,
+                        dotted_symbol="{}.{}".format(symbol_part, parts[i]),
                     )
                 )
                 return
@@ -586,10 +587,15 @@ class UndefinedSymbolHashRule(HashRule):
         symbol: str,
         first_level: bool,
         ref_is_global_table: bool,
+        dotted_symbol: Optional[str] = None,
     ):
+        # The key holds the whole dotted name (`a.x`), not only the attribute that is missing
+        # (`x`): only one rule is kept per key, and `a.x` and `b.x` are different symbols that
+        # must each be watched.
+        self.dotted_symbol = dotted_symbol if dotted_symbol is not None else symbol
         # noinspection PyUnresolvedReferences
         super().__init__(
-            key="UndefinedSymbol;{};{}".format(parent_symbol, symbol),
+            key="UndefinedSymbol;{};{}".format(parent_symbol, self.dotted_symbol),
             parent_symbol=parent_symbol,
             symbol=symbol,
             first_level=first_level,
@@ -604,6 +610,7 @@ class UndefinedSymbolHashRule(HashRule):
             self.symbol,
             self.first_level,
             self.ref_is_global_table,
+            self.dotted_symbol,
         )
 
     def collect_transitive_dependencies(
